@@ -36,7 +36,13 @@ def with_patch(prop, patch):
             a = subprocess.run(["patch", "-p1", "-s", "-i", patch], capture_output=True, text=True, cwd=dst)
             if a.returncode != 0:
                 return None, ["patch does not apply: " + (a.stdout + a.stderr)[-200:]]
-        return check(prop, dst)
+        rc, lines = check(prop, dst)
+        if rc != 0:
+            # an alarm on a tree that does not compile says nothing: the diff is stale (a later fix: commit changed its context)
+            b = subprocess.run(["go", "build", "./..."], cwd=dst, env=ENV, capture_output=True, text=True)
+            if b.returncode != 0:
+                return None, ["patched tree does not build (stale diff): " + (b.stdout + b.stderr).strip().splitlines()[-1][:160]]
+        return rc, lines
     finally:
         shutil.rmtree(tmp, ignore_errors=True)
 
